@@ -256,10 +256,16 @@ var rwVisitFns = map[string]int{ // boundary recursion -> index of the statement
 	"rewriteBlockStmt": 1, "rewriteStmt": 1, "rewriteStmts": 1,
 }
 
+// kinds that must be rejected: emitting them unchanged inside a thunk changes their meaning
+// (a defer would run when the thunk returns, a label loses its targets). A select is
+// documented as unsupported too, but a yield-free select that is emitted unchanged behaves
+// like the source, so for it "rejected or preserved" is decided by FIELDCOV/DEEPVISIT alone.
 var unsupportedKinds = map[string]string{
-	"SelectStmt": "select", "LabeledStmt": "labels", "DeferStmt": "defer", "BadStmt": "syntax error",
+	"LabeledStmt": "labels", "DeferStmt": "defer", "BadStmt": "syntax error",
 	"CaseClause": "stray case clause", "CommClause": "stray comm clause",
 }
+
+var eitherWayKinds = map[string]bool{"SelectStmt": true}
 
 func (r *rwRT) ruleCover() { r.ruleCoverKinds(nil) }
 
@@ -392,6 +398,8 @@ func (r *rwRT) coverShape(fn *ssa.Function, pos, kind string, in0 *astInput) {
 		c.check(accepted == 0, "RW.DISPATCH", construct, pos, "rejected on every path ("+why+" is unsupported in generators)", fmt.Sprintf("%s is documented as unsupported but %d path(s) accept it, e.g.: %s", why, accepted, sampleAccept))
 	} else if kind == "BranchStmt" && strings.Contains(construct, "goto") {
 		c.check(accepted == 0, "RW.DISPATCH", construct, pos, "goto rejected on every path", "goto is unsupported but accepted: "+sampleAccept)
+	} else if eitherWayKinds[kind] {
+		c.ok("RW.DISPATCH", construct, pos, fmt.Sprintf("%d accepting path(s) of %d: rejected, or preserved under the coverage rules", accepted, len(outs)))
 	} else {
 		c.check(accepted > 0, "RW.DISPATCH", construct, pos, fmt.Sprintf("%d accepting path(s), %d path(s) in total", accepted, len(outs)), "a statement of the supported subset is rejected on every path")
 	}
